@@ -2,6 +2,7 @@ import ChythonModel.Proofs.C14Charge
 import ChythonModel.Proofs.C14Hydrogens
 import ChythonModel.Proofs.C14Implicify
 import ChythonModel.Proofs.C14Lazy
+import ChythonModel.Proofs.C14Inverse
 /-!
 # C14 — normalisation conserves composition, is idempotent and numbering independent
 
@@ -245,20 +246,29 @@ theorem implicify_keeps_heavy_atoms (m m' : Mol) (cnt : Nat) (fx : List Nat) (h 
     (hnd : m.ids.Nodup) : heavyAtoms m' = heavyAtoms m :=
   implicify_heavy m m' cnt fx h hnd
 
-/-- Full statement (not proved at molecule level): `implicify (explicify m) = m` for every molecule whose hydrogen counts
-    come from `calc_implicit`, that has no explicit hydrogen and no aromatic bond. What is missing is the list surgery
-    (the new atoms are exactly the ones collected and removed, adjacency restored in order); the round trip is compared with
-    the real code on every molecule of the pool (stream IMPL `:explicit`, relational oracle `implicify-after-explicify`). -/
-def ExplicifyImplicifyInverse : Prop :=
-  ∀ (m e : Mol) (cnt : Nat), m.ids.Nodup → (∀ p ∈ m.atoms, p.2.z ≠ 1) →
-    (∀ n row, m.adj.lookup n = some row → ∀ kb ∈ row, kb.2.order ≠ 4) →
-    Valence.fixStructure m = some m → explicify m = .ok (e, cnt) →
-    ∃ fx, implicify e = .ok (m, cnt, fx)
+/-- **`implicify_hydrogens ∘ explicify_hydrogens = id`** (full statement, molecule level). For every molecule `m` that is
+    `Consistent` — numbers unique, neighbour dicts keyed like the atoms, no explicit hydrogen atom, no aromatic bond, and every
+    stored hydrogen count is the one `calc_implicit` (C04 model) gives — making the hydrogens explicit and implicit again
+    returns *the same molecule*: same atoms with the same counts, same neighbour dicts, all in the same dict order, and the
+    number of removed atoms equals the number of added ones. -/
+theorem explicify_implicify_inverse (m e : Mol) (cnt : Nat) (C : Consistent m) (he : explicify m = .ok (e, cnt)) :
+    ∃ fx, implicify e = .ok (m, cnt, fx) :=
+  implicify_explicify m e cnt C he
 
-/-- **Proved part (per atom)**: the `h ≥ i` scan of `implicify_hydrogens` inverts `calc_implicit`. If the bonds an atom
-    keeps (none aromatic) give `h > 0` by `calc_implicit` and the atom carries exactly `h` explicit plain hydrogens, all of
-    them are removed and the count `h` is restored. -/
-theorem explicify_implicify_inverse_partial (t : Valence.Rules) (a : Atom) (m : Mol) (row : List (Nat × Bond)) (hs : List Nat)
+/-- the hypotheses are satisfiable by a molecule with something to do: methanol `CO` (4 hydrogens added and removed) -/
+example : ∃ m e, Consistent m ∧ explicify m = .ok (e, 4) := by
+  refine ⟨⟨[(1, { z := 6, implH := some 3 }), (2, { z := 8, implH := some 1 })],
+            [(1, [(2, { order := 1 })]), (2, [(1, { order := 1 })])]⟩, _, ⟨by decide, by decide, by decide, by decide, ?_⟩, rfl⟩
+  intro p hp
+  simp only [List.mem_cons, List.mem_nil_iff, or_false] at hp
+  rcases hp with rfl | rfl
+  · exact ⟨3, rfl, by decide +kernel⟩
+  · exact ⟨1, rfl, by decide +kernel⟩
+
+/-- the per-atom core of it: the `h ≥ i` scan of `implicify_hydrogens` inverts `calc_implicit`. If the bonds an atom keeps
+    (none aromatic) give `h > 0` by `calc_implicit` and the atom carries exactly `h` explicit plain hydrogens, all of them are
+    removed and the count `h` is restored. -/
+theorem implicify_scan_inverts_calc_implicit (t : Valence.Rules) (a : Atom) (m : Mol) (row : List (Nat × Bond)) (hs : List Nat)
     (bs : List Valence.BE) (h : Nat) (hk : keptBonds m row hs = some bs) (hna : ∀ b ∈ bs, b.1 ≠ 4) (hz : a.z ≠ 1)
     (hc : Valence.calcWith t ⟨a.z, a.charge, a.radical, bs⟩ = some h) (hlen : hs.length = h) (hpos : 0 < h) :
     scan t a m row hs hs.length = .remove hs h :=
